@@ -57,7 +57,7 @@ M = [
  ("c17-no-version-check", "engine.go", "\tif version != rapidVersion {", "\tif false && version != rapidVersion {", ["C17"]),
  ("c17-seed-from-file", "engine.go", "\tversion, _, buf, err := loadFailFile(failfile)", "\tversion, fseed, buf, err := loadFailFile(failfile)\n\tif fseed != 0 {\n\t\tflags.seed = fseed\n\t}", ["C17"]),
  ("c18-no-overflow-path", "utils.go", "\t} else if int(n) > bitlen && int(n) >= 64-(16-int(m))*4 {\n\t\tbitlen = 65\n\t}", "\t}", ["C18"]),
- ("c18-const-baseseed", "data.go", "\treturn new(maphash.Hash).Sum64()", "\treturn 0x5eed", ["C18"]),
+ ("c18-const-baseseed", "data.go", "\treturn new(maphash.Hash).Sum64()", "\t_ = new(maphash.Hash)\n\treturn 0x5eed", ["C18"]),
  ("c18-seed-plus-zero", "engine.go", "\t\tseed += uint64(iter)\n", "\t\tseed += uint64(iter) * 0\n", ["C18", "C09"]),
  ("c12-binsearch-off-by-one", "shrink.go", "\t\t\ti = h + 1\n", "\t\t\ti = h + 2\n", ["C12"]),
  ("c12-no-removegroups", "shrink.go", "\t\ts.removeGroups(deadline)\n\t\ts.minimizeBlocks(deadline)", "\t\ts.minimizeBlocks(deadline)", ["C12"]),
